@@ -519,6 +519,7 @@ class EventBus:
             # an event being forwarded / re-dispatched from one of its own handlers is not its own parent
             if current_event is not None and current_event.event_id != event.event_id:
                 event.event_parent_id = current_event.event_id
+                event._event_parent = current_event  # pyright: ignore[reportPrivateUsage]
 
         # Track child events - if we're inside a handler, add this event to the handler's event_children list
         # Only track if this is a NEW event (not forwarding an existing event)
@@ -1028,13 +1029,16 @@ class EventBus:
         while current.event_parent_id and current.event_parent_id not in checked_ids:
             checked_ids.add(current.event_parent_id)
 
-            # Find parent event in any bus's history
-            parent_event = None
-            # Create a list copy to avoid "Set changed size during iteration" error
-            for bus in list(EventBus.all_instances):
-                if bus and current.event_parent_id in bus.event_history:
-                    parent_event = bus.event_history[current.event_parent_id]
-                    break
+            # Find parent event: the one recorded at dispatch time (it may have been evicted from history by now),
+            # otherwise look it up in any bus's history
+            parent_event = current._event_parent  # pyright: ignore[reportPrivateUsage]
+            if parent_event is None or parent_event.event_id != current.event_parent_id:
+                parent_event = None
+                # Create a list copy to avoid "Set changed size during iteration" error
+                for bus in list(EventBus.all_instances):
+                    if bus and current.event_parent_id in bus.event_history:
+                        parent_event = bus.event_history[current.event_parent_id]
+                        break
 
             if not parent_event:
                 break
